@@ -146,7 +146,11 @@ type Pod struct {
 	Ext       map[string]int `json:"ext,omitempty"`
 	InitCPU   int            `json:"initCpu,omitempty"`
 	InitGPUs  int            `json:"initGpus,omitempty"`
-	Claims    []Claim        `json:"claims,omitempty"` // DRA resource claims (one ResourceClaim object per entry, owned by the pod)
+	InitMemMB int            `json:"initMemMB,omitempty"`
+	// pod overhead of the runtime class (spec.overhead): added on top of max(containers, init containers)
+	OverheadCPU   int     `json:"overheadCpu,omitempty"`
+	OverheadMemMB int     `json:"overheadMemMB,omitempty"`
+	Claims        []Claim `json:"claims,omitempty"` // DRA resource claims (one ResourceClaim object per entry, owned by the pod)
 	// raw annotation overrides (hostile worlds)
 	RawAnnotations map[string]string `json:"rawAnnotations,omitempty"`
 	NoContainers   bool              `json:"noContainers,omitempty"`
@@ -624,8 +628,20 @@ func BuildPod(g *Group, p *Pod, now time.Time) *v1.Pod {
 	if !p.NoContainers {
 		pod.Spec.Containers = []v1.Container{{Name: "main", Image: "x", Resources: v1.ResourceRequirements{Requests: req, Limits: lim}}}
 	}
-	if p.InitCPU > 0 || p.InitGPUs > 0 {
+	if p.OverheadCPU > 0 || p.OverheadMemMB > 0 {
+		pod.Spec.Overhead = v1.ResourceList{}
+		if p.OverheadCPU > 0 {
+			pod.Spec.Overhead[v1.ResourceCPU] = *resource.NewMilliQuantity(int64(p.OverheadCPU), resource.DecimalSI)
+		}
+		if p.OverheadMemMB > 0 {
+			pod.Spec.Overhead[v1.ResourceMemory] = qty(int64(p.OverheadMemMB) * 1000 * 1000)
+		}
+	}
+	if p.InitCPU > 0 || p.InitGPUs > 0 || p.InitMemMB > 0 {
 		ireq := v1.ResourceList{}
+		if p.InitMemMB > 0 {
+			ireq[v1.ResourceMemory] = qty(int64(p.InitMemMB) * 1000 * 1000)
+		}
 		if p.InitCPU > 0 {
 			ireq[v1.ResourceCPU] = *resource.NewMilliQuantity(int64(p.InitCPU), resource.DecimalSI)
 		}
